@@ -726,7 +726,7 @@ func ordGenFan(rng *rand.Rand, tr string, maxLen int) *ordCase {
 				m.kind = 'n'
 				m.meth = []string{"log", "prog"}[rng.Intn(2)]
 			} else {
-				m.meth = []string{"lroots", "sample", "elicit", "ping"}[rng.Intn(4)]
+				m.meth = []string{"lroots", "sample", "elicit", "ping", "samplet"}[rng.Intn(5)]
 			}
 		}
 		if m.kind == 0 {
